@@ -200,9 +200,10 @@ class FakeContext:
 class Patched:
     """Context manager: rebind helpers.get_context (and delays) to run parallel_add in-process."""
 
-    def __init__(self, helpers, schedule):
+    def __init__(self, helpers, schedule, cores=None):
         self.helpers = helpers
         self.ctx = FakeContext(schedule)
+        self.cores = cores
 
     def __enter__(self):
         h = self.helpers
@@ -219,6 +220,19 @@ class Patched:
                 raise Hang("parallel_add polls forever (10000 sleeps without progress)")
 
         h.sleep = fake_sleep
+        self._psutil = getattr(h, "psutil", None)
+        if self.cores is not None and self._psutil is not None:
+            # the host is reported as a machine with `cores` cores (environment diversity: small laptops, big servers)
+            real, cores = self._psutil, self.cores
+
+            class _Psutil:
+                def __getattr__(self, name):
+                    return getattr(real, name)
+
+                def cpu_count(self, logical=True):
+                    return cores
+
+            h.psutil = _Psutil()
         lg = logging.getLogger(h.__name__)
         if not any(isinstance(x, logging.NullHandler) for x in lg.handlers):
             lg.addHandler(logging.NullHandler())
@@ -228,6 +242,8 @@ class Patched:
     def __exit__(self, *exc):
         h = self.helpers
         h.get_context, h.sleep = self._saved
+        if self._psutil is not None:
+            h.psutil = self._psutil
         return False
 
 
